@@ -225,6 +225,12 @@ pub fn par_for_chunk(n: usize, chunk: usize, f: impl Fn(usize) + Sync) {
                 }
                 for i in start..(start + chunk).min(n) {
                     if let Err(m) = guarded(|| f(i)) {
+                        if m.contains("/repo/src/") {
+                            // the LIBRARY panicked on a call the harness had not wrapped (set-up code): that is
+                            // a finding about the code, not a crash of the machinery; the work item is lost
+                            collateral_library_panic(&m);
+                            continue;
+                        }
                         *panicked.lock().unwrap() = Some(format!("work item {}: {}", i, m));
                         next.store(n, Ordering::Relaxed);
                         return;
@@ -235,6 +241,24 @@ pub fn par_for_chunk(n: usize, chunk: usize, f: impl Fn(usize) + Sync) {
     });
     if let Some(m) = panicked.into_inner().unwrap() {
         machinery_failure(&format!("harness panic in worker: {}", m));
+    }
+}
+
+static COLLATERAL: Mutex<Vec<String>> = Mutex::new(Vec::new());
+
+/// record a panic raised inside /repo/src by a call that was not individually guarded
+pub fn collateral_library_panic(msg: &str) {
+    let mut c = COLLATERAL.lock().unwrap();
+    if c.len() < 64 {
+        c.push(msg.to_string());
+    }
+}
+
+/// "file:line" of the first /repo/src location in a panic message
+pub fn library_location(msg: &str) -> String {
+    match msg.find("/repo/src/") {
+        Some(i) => msg[i..].split(|c: char| c.is_whitespace() || c == ')' || c == ',').next().unwrap_or("").trim_end_matches(':').to_string(),
+        None => String::new(),
     }
 }
 
@@ -364,6 +388,15 @@ pub struct Finish<'a> {
 pub type ReplayFn = fn(&Value) -> Result<(), String>;
 
 pub fn finish(ctx: &Ctx, st: &Stats, fin: Finish, replay: ReplayFn) -> i32 {
+    {
+        let mut locs: Vec<String> = COLLATERAL.lock().unwrap().iter().map(|m| library_location(m)).collect();
+        locs.sort();
+        locs.dedup();
+        for loc in locs {
+            let msg = COLLATERAL.lock().unwrap().iter().find(|m| library_location(m) == loc).cloned().unwrap_or_default();
+            st.violation(format!("library-panic:{}", loc), format!("the library panicked on a valid call made by the check's set-up code: {}", msg), json!({"kind": "library-panic", "location": loc, "tier": ctx.tier_str()}));
+        }
+    }
     let known = load_known(ctx);
     let vio = st.violations();
     let mut unknown: Vec<&Violation> = vec![];
@@ -435,11 +468,13 @@ pub fn finish(ctx: &Ctx, st: &Stats, fin: Finish, replay: ReplayFn) -> i32 {
         "violations": unknown.len(),
         "violations_total_cases": total_vio,
     });
-    let evdir = ctx.verif_dir.join("evidence");
-    let _ = std::fs::create_dir_all(&evdir);
-    let evpath = evdir.join(format!("{}.json", ctx.id));
-    std::fs::write(&evpath, serde_json::to_string_pretty(&ev).unwrap() + "\n")
-        .unwrap_or_else(|e| machinery_failure(&format!("cannot write evidence: {}", e)));
+    if !ctx.flag("--no-evidence") {
+        let evdir = ctx.verif_dir.join("evidence");
+        let _ = std::fs::create_dir_all(&evdir);
+        let evpath = evdir.join(format!("{}.json", ctx.id));
+        std::fs::write(&evpath, serde_json::to_string_pretty(&ev).unwrap() + "\n")
+            .unwrap_or_else(|e| machinery_failure(&format!("cannot write evidence: {}", e)));
+    }
 
     for (v, k) in &known_hit {
         println!("KNOWN-FINDING: property={} key={} {} [{}]", ctx.id, v.key, k.text, v.msg);
@@ -468,8 +503,14 @@ pub fn finish(ctx: &Ctx, st: &Stats, fin: Finish, replay: ReplayFn) -> i32 {
         let doc = json!({"property": ctx.id, "key": v.key, "msg": v.msg, "case": v.case});
         std::fs::write(&path, serde_json::to_string_pretty(&doc).unwrap() + "\n").unwrap();
         // replay twice without the explorer
-        let r1 = guarded(|| replay(&v.case)).unwrap_or_else(|p| Err(format!("panic in replay: {}", p)));
-        let r2 = guarded(|| replay(&v.case)).unwrap_or_else(|p| Err(format!("panic in replay: {}", p)));
+        let do_replay = |case: &Value| -> Result<(), String> {
+            match replay_generic(&ctx.id, case) {
+                Some(r) => r,
+                None => replay(case),
+            }
+        };
+        let r1 = guarded(|| do_replay(&v.case)).unwrap_or_else(|p| Err(format!("panic in replay: {}", p)));
+        let r2 = guarded(|| do_replay(&v.case)).unwrap_or_else(|p| Err(format!("panic in replay: {}", p)));
         match (&r1, &r2) {
             (Err(a), Err(b)) if a == b => {
                 println!("VIOLATION property={} replay={}", ctx.id, path.display());
@@ -578,6 +619,15 @@ pub fn build_tag() -> &'static str {
 
 /// In a child run (`--child`), print the statistics as one line instead of writing evidence
 pub fn child_emit(st: &Stats) -> i32 {
+    {
+        let mut locs: Vec<String> = COLLATERAL.lock().unwrap().iter().map(|m| library_location(m)).collect();
+        locs.sort();
+        locs.dedup();
+        for loc in locs {
+            let msg = COLLATERAL.lock().unwrap().iter().find(|m| library_location(m) == loc).cloned().unwrap_or_default();
+            st.violation(format!("library-panic:{}", loc), format!("the library panicked on a valid call made by the check's set-up code: {}", msg), json!({"kind": "child-crash", "env": if is_checked_build() { "RQ_BIN_CHECKED" } else { "RQ_BIN_RELEASE" }, "build_tag": build_tag(), "args": Vec::<String>::new(), "tier": "quick", "location": loc}));
+        }
+    }
     let vio: Vec<Value> = st
         .violations()
         .iter()
@@ -618,6 +668,16 @@ pub fn run_child_and_merge(ctx: &Ctx, st: &Stats, env_name: &str, tag: &str, arg
     let line = stdout.lines().find(|l| l.starts_with("CHILD-RESULT "));
     let line = match line {
         Some(l) => l,
+        None if String::from_utf8_lossy(&out.stderr).contains("/repo/src/") || stdout.contains("/repo/src/") => {
+            let all = format!("{} {}", stdout, String::from_utf8_lossy(&out.stderr));
+            let loc = library_location(&all);
+            st.violation(
+                format!("child-crash:{}:{}", tag, loc),
+                format!("the {} build of the check died in library code ({}): {}", tag, loc, all.lines().filter(|l| l.contains("/repo/src/")).take(2).collect::<Vec<_>>().join(" | ")),
+                json!({"kind": "child-crash", "env": env_name, "build_tag": tag, "args": args, "tier": ctx.tier_str(), "location": loc}),
+            );
+            return;
+        }
         None => machinery_failure(&format!(
             "child {} {:?} gave no result (status {:?}): {} {}",
             bin,
@@ -701,4 +761,73 @@ pub fn replay_delegate(id: &str, case: &Value) -> Option<Result<(), String>> {
             }
         }
     }
+}
+
+/// generic replays for violations that are not tied to one enumerated case
+pub fn replay_generic(id: &str, case: &Value) -> Option<Result<(), String>> {
+    match case["kind"].as_str() {
+        Some("child-crash") => {
+            let env_name = case["env"].as_str().unwrap_or("RQ_BIN_CHECKED");
+            let bin = match std::env::var(env_name) {
+                Ok(b) => b,
+                Err(_) => return Some(Err(format!("{} not set", env_name))),
+            };
+            let args: Vec<String> = case["args"].as_array().map(|a| a.iter().map(|x| x.as_str().unwrap_or("").to_string()).collect()).unwrap_or_default();
+            let out = std::process::Command::new(&bin).arg(id).arg("--tier").arg(case["tier"].as_str().unwrap_or("quick")).arg("--child").args(&args).output();
+            match out {
+                Err(e) => Some(Err(format!("cannot run child: {}", e))),
+                Ok(o) => {
+                    let so = String::from_utf8_lossy(&o.stdout).to_string();
+                    if let Some(l) = so.lines().find(|l| l.starts_with("CHILD-RESULT ")) {
+                        // the child survived: did it record a library panic of its worker threads again?
+                        let loc = case["location"].as_str().unwrap_or("");
+                        if l.contains(&format!("library-panic:{}", loc)) {
+                            Some(Err(format!("the library panics again at {} in the child build", loc)))
+                        } else {
+                            Some(Ok(()))
+                        }
+                    } else {
+                        let all = format!("{} {}", so, String::from_utf8_lossy(&o.stderr));
+                        Some(Err(format!("child died again in library code at {}", library_location(&all))))
+                    }
+                }
+            }
+        }
+        Some("library-panic") => {
+            // re-run the whole check in a fresh process and look for the same location
+            let exe = std::env::current_exe().ok()?;
+            let out = std::process::Command::new(exe).arg(id).arg("--tier").arg(case["tier"].as_str().unwrap_or("quick")).arg("--no-evidence").output().ok()?;
+            let so = String::from_utf8_lossy(&out.stdout).to_string();
+            let loc = case["location"].as_str().unwrap_or("");
+            if so.contains(&format!("library-panic:{}", loc)) {
+                Some(Err(format!("the library panics again at {}", loc)))
+            } else {
+                Some(Ok(()))
+            }
+        }
+        _ => None,
+    }
+}
+
+/// the check's run function itself panicked (main thread): a library panic is reported as a violation,
+/// anything else is a machinery failure
+pub fn fatal_panic(ctx: &Ctx, msg: &str, replay: ReplayFn) -> i32 {
+    if !msg.contains("/repo/src/") {
+        machinery_failure(&format!("harness panicked: {}", msg));
+    }
+    if ctx.flag("--child") {
+        // the parent reads stderr and files this as a child crash in library code
+        eprintln!("library panic in child: {}", msg);
+        println!("library panic in child: {}", msg);
+        return 101;
+    }
+    collateral_library_panic(msg);
+    let st = Stats::new();
+    st.eval(1);
+    st.nontriv(2);
+    st.sample(json!({"fatal": msg}));
+    let mut args = ctx.args.clone();
+    args.push("--no-evidence".into());
+    let c2 = Ctx { id: ctx.id.clone(), tier: ctx.tier, seed: ctx.seed, verif_dir: ctx.verif_dir.clone(), start: ctx.start, threads: ctx.threads, args };
+    finish(&c2, &st, Finish { level: "exploration", rule: "aborted: the library panicked in the check's set-up code".into(), exhaustive: false, assumptions: vec![], extra: Map::new(), must_be_nonzero: vec![] }, replay)
 }
